@@ -454,9 +454,11 @@ class Device(nfc.clf.device.Device):
                     if brty == '106A':
                         assert data.pop(0) == 0xF0
                     assert len(data) == data.pop(0)
-                except AssertionError:
+                except (AssertionError, IndexError):
                     return None
                 if data.startswith(b'\xD4\x04'):
+                    if len(data) < 5 or data[3] >> 3 & 7 > 2:
+                        return None
                     target.psl_req = data[:]
                     target.psl_res = b'\xD5\x05' + target.psl_req[2:3]
                     log.debug("rcvd PSL_REQ %s",
@@ -474,7 +476,7 @@ class Device(nfc.clf.device.Device):
                         if brty == '106A':
                             assert data.pop(0) == 0xF0
                         assert len(data) == data.pop(0)
-                    except AssertionError:
+                    except (AssertionError, IndexError):
                         return None
                 if data.startswith(b'\xD4\x08'):
                     log.debug("rcvd DSL_REQ %s", hexlify(data).decode())
